@@ -424,6 +424,11 @@ theorem preRun_retro {σ} (clk : Clock τ σ) : ∀ (ps : List (PreOp τ)) (m : 
     simp only [preRun] at h; injection h with h; injection h with h _; rw [h]
   | .setTock v :: ps, m, c, tock, m', c', tock', h => by
     simp only [preRun] at h; exact preRun_retro clk ps m c v m' c' tock' h
+  | .xread :: ps, m, c, tock, m', c', tock', h => by
+    simp only [preRun] at h
+    split at h
+    · cases h
+    · exact preRun_retro clk ps m _ tock m' c' tock' h
   | .peek :: ps, m, c, tock, m', c', tock', h => by
     unfold preRun at h
     split at h
@@ -446,6 +451,7 @@ def tockAtRun (tock : τ) : List (PreOp τ) → τ
   | [] => tock
   | .setTock v :: ps => tockAtRun v ps
   | .peek :: ps => tockAtRun tock ps
+  | .xread :: ps => tockAtRun tock ps
 
 theorem preRun_tock {σ} (clk : Clock τ σ) : ∀ (ps : List (PreOp τ)) (m : Mono τ) (c : σ) (tock : τ) (m' : Mono τ) (c' : σ) (tock' : τ),
     (preRun clk ps m c tock).2 = some (m', c', tock') → tock' = tockAtRun tock ps
@@ -453,6 +459,11 @@ theorem preRun_tock {σ} (clk : Clock τ σ) : ∀ (ps : List (PreOp τ)) (m : M
     simp only [preRun] at h; injection h with h; injection h with _ h; injection h with _ h; rw [h]; rfl
   | .setTock v :: ps, m, c, tock, m', c', tock', h => by
     simp only [preRun] at h; exact preRun_tock clk ps m c v m' c' tock' h
+  | .xread :: ps, m, c, tock, m', c', tock', h => by
+    simp only [preRun] at h
+    split at h
+    · cases h
+    · exact preRun_tock clk ps m _ tock m' c' tock' h
   | .peek :: ps, m, c, tock, m', c', tock', h => by
     unfold preRun at h
     split at h
@@ -501,8 +512,8 @@ structure TSim (t : Tymer τ) (r : TRef τ) : Prop where
   start : t.start = r.start
   stop : t.stop = r.start + r.dur
 
-theorem tsnap_eq_report (w : TWorld τ) (t : Tymer τ) (r : TRef τ) (h : TSim t r) (ret : Option τ) :
-    tsnap w t ret = r.report w ret := by
+theorem tsnap_eq_report (w : TWorld τ) (t : Tymer τ) (r : TRef τ) (h : TSim t r) (ret : Option τ) (raised : Bool := false) :
+    tsnap w t ret raised = r.report w ret raised := by
   obtain ⟨hw, hs, hp⟩ := h
   have hd : t.stop - t.start = r.dur := by oarith
   unfold tsnap TRef.report Tymer.elapsed Tymer.remaining Tymer.expired Tymer.now TRef.now Tymer.duration
@@ -537,7 +548,9 @@ theorem trun_eq_rrun : ∀ (ops : List (TOp τ)) (w : TWorld τ) (t : Tymer τ) 
       | none =>
         simp only [trun, rrun, tstep, rstep, Tymer.startOp, Tymer.now, TRef.now, hw]
         cases hwd : r.wound with
-        | none => rfl
+        | none =>
+          simp only []
+          rw [tsnap_eq_report _ t r ⟨hw, hs, hp⟩ none true, trun_eq_rrun ops _ t r ⟨hw, hs, hp⟩]
         | some i =>
           have hsim : TSim { wound := some i, start := w.tyme i, stop := w.tyme i + durOr d t.duration }
               { wound := some i, start := w.tyme i, dur := durOr d r.dur } := ⟨rfl, rfl, by cases d <;> simp [durOr, hd]⟩
@@ -548,6 +561,15 @@ theorem trun_eq_rrun : ∀ (ops : List (TOp τ)) (w : TWorld τ) (t : Tymer τ) 
           { r with start := r.start + r.dur, dur := durOr d r.dur } := ⟨hw, hp, by cases d <;> simp [durOr, hd, hp]⟩
       simp only [trun, rrun, tstep, rstep, Tymer.restartOp, Tymer.startOp]
       rw [tsnap_eq_report _ _ _ hsim, trun_eq_rrun ops _ _ _ hsim, hp]
+    | setTock i v =>
+      simp only [trun, rrun, tstep, rstep]
+      rw [tsnap_eq_report _ t r ⟨hw, hs, hp⟩, trun_eq_rrun ops _ t r ⟨hw, hs, hp⟩]
+    | nop =>
+      simp only [trun, rrun, tstep, rstep]
+      rw [tsnap_eq_report _ t r ⟨hw, hs, hp⟩, trun_eq_rrun ops _ t r ⟨hw, hs, hp⟩]
+    | bad =>
+      simp only [trun, rrun, tstep, rstep]
+      rw [tsnap_eq_report _ t r ⟨hw, hs, hp⟩ none true, trun_eq_rrun ops _ t r ⟨hw, hs, hp⟩]
     | wind i =>
       have hsim : TSim { wound := some i, start := w.tyme i, stop := w.tyme i + durOr none (t.stop - t.start) }
           { r with wound := some i, start := w.tyme i } := ⟨rfl, rfl, by simp [← hd, durOr, Tymer.duration]⟩
@@ -576,6 +598,9 @@ theorem texec_restarts (D : τ) : ∀ (ops : List (TOp τ)) (w : TWorld τ) (t :
       exact ⟨w', t', by simp only [texec, tstep]; exact h1, h2, by simpa [restartsIn] using h3, by simpa [restartsIn] using h4⟩
     | start d s => simp [TOp.tymeOrRestart] at hop
     | wind i => simp [TOp.tymeOrRestart] at hop
+    | setTock i v => simp [TOp.tymeOrRestart] at hop
+    | bad => simp [TOp.tymeOrRestart] at hop
+    | nop => simp [TOp.tymeOrRestart] at hop
     | restart d =>
       cases d with
       | some d => simp [TOp.tymeOrRestart] at hop
@@ -609,6 +634,30 @@ theorem mstep_obs {σ} (clk : Clock τ σ) (m m' : Mono τ) (c c' : σ) (op : MO
   cases op with
   | start d s => simp [MOp.isObs] at hop
   | restart d => simp [MOp.isObs] at hop
+  | setRetro b =>
+    simp only [mstep] at h
+    injection h with h; injection h with h1 h; injection h with h2 h3
+    subst h2
+    exact ⟨le_refl _, le_refl _, by intro x hx; simp [elapsedVal?] at hx, by intro b hb; simp [expiredVal?] at hb⟩
+  | bad =>
+    simp only [mstep] at h
+    injection h with h; injection h with h1 h; injection h with h2 h3
+    subst h2
+    exact ⟨le_refl _, le_refl _, by intro x hx; simp [elapsedVal?] at hx, by intro b hb; simp [expiredVal?] at hb⟩
+  | other rd =>
+    cases rd with
+    | false =>
+      simp only [mstep] at h
+      injection h with h; injection h with h1 h; injection h with h2 h3
+      subst h2
+      exact ⟨le_refl _, le_refl _, by intro x hx; simp [elapsedVal?] at hx, by intro b hb; simp [expiredVal?] at hb⟩
+    | true =>
+      simp only [mstep] at h
+      split at h
+      · cases h
+      · injection h with h; injection h with h1 h; injection h with h2 h3
+        subst h2
+        exact ⟨le_refl _, le_refl _, by intro x hx; simp [elapsedVal?] at hx, by intro b hb; simp [expiredVal?] at hb⟩
   | duration =>
     simp only [mstep] at h
     injection h with h; injection h with h1 h; injection h with h2 h3
